@@ -1,24 +1,53 @@
 import Proofs.Lemmas.Template
-/-! Variable-width user placeholders (value lists / alternations of literal words) under the
-`Unambig` predicate: the priority argument of the backtracking matcher, and the attributes that
-come back through `get_info`. -/
+/-! Variable-width user placeholders under the `Unambig` predicate: value lists
+(alternations), the default lazy regex `.+?` (and `.*?`), character classes with `+ * {n}`,
+`\d{n}`.  The priority argument of the backtracking matcher, and the attributes that come back
+through `get_info`. -/
 namespace Template
 open Time Digits
 
 /-! ### Unambiguous templates -/
 
-/-- a user placeholder is usable at this position: it is declared as a value list `ws`, it is
-filled with one of the values (free of special characters), and it is followed by a literal
-whose first character occurs in none of the values -/
-def UserOK (cfg : Cfg) (ctx : Ctx) (n : String) (ts : List Tok) : Prop :=
-  match cfg.regexOf n, ctx.fill.lookup n, ts with
-  | some (.alt ws), some v, .lit c0 :: _ =>
-    v ∈ ws ∧ (∀ c ∈ v, special c = false) ∧ (∀ w ∈ ws, c0 ∉ w)
-  | _, _, _ => False
+/-- the literal text that directly follows a position of the template -/
+def litPrefix : List Tok → List Char
+  | .lit c :: ts => c :: litPrefix ts
+  | _ => []
 
-/-- templates of literals, fillable temporal placeholders (fixed width, unrestricted) and
-value-list user placeholders each followed by a distinguishing literal; repeated placeholders
-allowed.  All conditions are decidable. -/
+/-- the following literal text `L` does not show up earlier: at no position inside the value
+`v` does `v ++ L` continue with `L` (so a lazy match cannot stop before the end of `v`).
+E.g. `v = "a.b"`, `L = ".nc"` is fine; `v = "a.nc"`, `L = ".nc"` is not. -/
+def NoEarly (v L : List Char) : Prop :=
+  ∀ k, k < v.length → L.isPrefixOf ((v ++ L).drop k) = false
+
+/-- the exact condition under which the placeholder regex `r`, written with the value `v` and
+followed by the literal text `L`, gives `v` back -/
+def ValueOK : URegex → List Char → List Char → Prop
+  | .alt ws, v, L => v ∈ ws ∧
+      match L with
+      | c0 :: _ => ∀ w ∈ ws, c0 ∉ w          -- first following character occurs in no value
+      | [] => False
+  | .digits k, v, _ => v.length = k ∧ v.all isDigit = true
+  | .lazyPlus, v, L => 1 ≤ v.length ∧ (∀ c ∈ v, c ≠ '\n') ∧ NoEarly v L
+  | .lazyStar, v, L => (∀ c ∈ v, c ≠ '\n') ∧ NoEarly v L
+  | .cls rs q, v, L => (∀ c ∈ v, inCls rs c = true) ∧
+      (match L with
+        | c0 :: _ => inCls rs c0 = false      -- first following character is outside the class
+        | [] => False) ∧
+      (match q with
+        | .plus => 1 ≤ v.length
+        | .star => True
+        | .exact k => v.length = k)
+
+/-- a user placeholder is usable at this position: it has a regex (declared, or the default
+`.+?` of the path setter), it is filled with a value free of special characters, and value and
+following literal text satisfy `ValueOK` -/
+def UserOK (cfg : Cfg) (ctx : Ctx) (n : String) (ts : List Tok) : Prop :=
+  match cfg.regexOf n, ctx.fill.lookup n with
+  | some r, some v => (∀ c ∈ v, special c = false) ∧ ValueOK r v (litPrefix ts)
+  | _, _ => False
+
+/-- templates of literals, fillable temporal placeholders (fixed width, unrestricted) and user
+placeholders satisfying `UserOK`; repeated placeholders allowed.  All conditions are decidable. -/
 def Unambig (cfg : Cfg) (ctx : Ctx) : List Tok → Prop
   | [] => True
   | .lit c :: ts => regexActive c = false ∧ special c = false ∧ Unambig cfg ctx ts
@@ -27,30 +56,17 @@ def Unambig (cfg : Cfg) (ctx : Ctx) : List Tok → Prop
   | .star :: _ => False
 
 theorem userOK_elim {cfg : Cfg} {ctx : Ctx} {n : String} {ts : List Tok} (h : UserOK cfg ctx n ts) :
-    ∃ ws v c0 ts', cfg.regexOf n = some (.alt ws) ∧ ctx.fill.lookup n = some v ∧
-      ts = .lit c0 :: ts' ∧ v ∈ ws ∧ (∀ c ∈ v, special c = false) ∧ (∀ w ∈ ws, c0 ∉ w) := by
+    ∃ r v, cfg.regexOf n = some r ∧ ctx.fill.lookup n = some v ∧
+      (∀ c ∈ v, special c = false) ∧ ValueOK r v (litPrefix ts) := by
   unfold UserOK at h
   cases h1 : cfg.regexOf n with
   | none => simp [h1] at h
   | some r =>
-    cases r with
-    | alt ws =>
-      cases h2 : ctx.fill.lookup n with
-      | none => simp [h1, h2] at h
-      | some v =>
-        cases ts with
-        | nil => simp [h1, h2] at h
-        | cons t ts' =>
-          cases t with
-          | lit c0 =>
-            simp only [h1, h2] at h
-            exact ⟨ws, v, c0, ts', rfl, rfl, rfl, h.1, h.2.1, h.2.2⟩
-          | ph k => simp [h1, h2] at h
-          | star => simp [h1, h2] at h
-    | digits m => simp [h1] at h
-    | lazyPlus => simp [h1] at h
-    | lazyStar => simp [h1] at h
-    | cls rs q => simp [h1] at h
+    cases h2 : ctx.fill.lookup n with
+    | none => simp [h1, h2] at h
+    | some v =>
+      simp only [h1, h2] at h
+      exact ⟨r, v, rfl, rfl, h.1, h.2⟩
 
 theorem unambig_of_fixed (cfg : Cfg) (ctx : Ctx) :
     ∀ tpl : List Tok, (∀ t ∈ tpl, FixedTok t) → Unambig cfg ctx tpl := by
@@ -144,29 +160,191 @@ theorem cands_alt_spec (ws : List (List Char)) (v : List Char) (c0 : Char) (t : 
       · exact hge
     · simp at hk
 
+/-! ### Reaching the true length in the engine's priority order -/
+
+/-- in the candidate list of `it` at `s`, the length `n` is reached: every search function that
+dead-ends wherever the rest of the template does not match, and succeeds at `n`, succeeds -/
+def Reaches (it : Item) (s : List Char) (n : Nat) (items : List (Item × Option Key)) : Prop :=
+  ∀ F : Nat → Option Caps, (∀ k, k ≠ n → matchItems items (s.drop k) = none → F k = none) →
+    ∀ r, F n = some r → (cands it s).findSome? F = some r
+
+theorem matchItems_of_reaches (it : Item) (key : Option Key) (items : List (Item × Option Key))
+    (s : List Char) (n : Nat) (caps : Caps) (hreach : Reaches it s n items)
+    (hr : matchItems items (s.drop n) = some caps) :
+    matchItems ((it, key) :: items) s =
+      some (match key with
+        | some k => (k, s.take n) :: caps
+        | none => caps) := by
+  simp only [matchItems]
+  apply hreach
+  · intro k _ hk; simp only [hk]
+  · simp only [hr]; cases key <;> rfl
+
+theorem findSome_range' {β : Type} (F : Nat → Option β) (r : β) (n : Nat) :
+    ∀ (len m : Nat), m ≤ n → n < m + len → (∀ k, m ≤ k → k < n → F k = none) → F n = some r →
+      (List.range' m len).findSome? F = some r := by
+  intro len
+  induction len with
+  | zero => intro m h1 h2; omega
+  | succ len ih =>
+    intro m h1 h2 hbad hf
+    rw [List.range'_succ, List.findSome?_cons]
+    rcases Nat.eq_or_lt_of_le h1 with rfl | hlt
+    · simp [hf]
+    · rw [hbad m (Nat.le_refl _) hlt]
+      exact ih (m + 1) hlt (by omega) (fun k hk1 hk2 => hbad k (by omega) hk2) hf
+
+theorem takeWhile_length_ge (p : Char → Bool) :
+    ∀ (v rest : List Char), (∀ c ∈ v, p c = true) → v.length ≤ ((v ++ rest).takeWhile p).length := by
+  intro v
+  induction v with
+  | nil => intro rest _; simp
+  | cons x xs ih =>
+    intro rest h
+    have hx : p x = true := h x List.mem_cons_self
+    simp only [List.cons_append, List.takeWhile_cons, hx, ↓reduceIte, List.length_cons]
+    have := ih rest (fun c hc => h c (List.mem_cons_of_mem _ hc))
+    omega
+
+theorem takeWhile_append_stop (p : Char → Bool) :
+    ∀ (v : List Char) (c0 : Char) (rest : List Char), (∀ c ∈ v, p c = true) → p c0 = false →
+      (v ++ c0 :: rest).takeWhile p = v := by
+  intro v
+  induction v with
+  | nil => intro c0 rest _ h0; simp [List.takeWhile_cons, h0]
+  | cons x xs ih =>
+    intro c0 rest h h0
+    have hx : p x = true := h x List.mem_cons_self
+    simp only [List.cons_append, List.takeWhile_cons, hx, ↓reduceIte]
+    rw [ih c0 rest (fun c hc => h c (List.mem_cons_of_mem _ hc)) h0]
+
+theorem downTo_head (lo k : Nat) (h : lo ≤ k) : ∃ tl, downTo lo k = k :: tl := by
+  cases k with
+  | zero =>
+    have : lo = 0 := by omega
+    subst this; exact ⟨[], by simp [downTo]⟩
+  | succ k => exact ⟨downTo lo k, by simp [downTo, h]⟩
+
+/-- when the literal text `L` follows and `NoEarly v L` holds, stopping inside `v` dead-ends -/
+theorem noEarly_dead (v L t : List Char) (items : List (Item × Option Key))
+    (hfail : ∀ str, L.isPrefixOf str = false → matchItems items str = none)
+    (hne : NoEarly v L) (k : Nat) (hk : k < v.length) :
+    matchItems items ((v ++ (L ++ t)).drop k) = none := by
+  apply hfail
+  have h1 := hne k hk
+  cases h2 : L.isPrefixOf ((v ++ (L ++ t)).drop k) with
+  | false => rfl
+  | true =>
+    exfalso
+    rw [List.isPrefixOf_iff_prefix] at h2
+    have hdrop : (v ++ (L ++ t)).drop k = (v ++ L).drop k ++ t := by
+      rw [← List.append_assoc, List.drop_append_of_le_length (by simp; omega)]
+    rw [hdrop] at h2
+    have hlen : L.length ≤ ((v ++ L).drop k).length := by simp; omega
+    have h3 : L <+: (v ++ L).drop k :=
+      List.prefix_of_prefix_length_le h2 (List.prefix_append _ _) hlen
+    rw [← List.isPrefixOf_iff_prefix] at h3
+    rw [h3] at h1; simp at h1
+
+/-- stopping inside `v` dead-ends when the first following character does not occur in `v` -/
+theorem char_dead (v : List Char) (c0 : Char) (L' t : List Char) (items : List (Item × Option Key))
+    (hfail : ∀ str, (c0 :: L').isPrefixOf str = false → matchItems items str = none)
+    (hc : c0 ∉ v) (k : Nat) (hk : k < v.length) :
+    matchItems items ((v ++ (c0 :: L' ++ t)).drop k) = none := by
+  apply hfail
+  rw [List.drop_append_of_le_length (by omega), List.drop_eq_getElem_cons hk]
+  have hne : v[k] ≠ c0 := fun h => hc (h ▸ List.getElem_mem hk)
+  have : (c0 == v[k]) = false := by simpa using fun h : c0 = v[k] => hne h.symm
+  rw [List.cons_append]
+  simp only [List.isPrefixOf, this, Bool.false_and]
+
+theorem reaches_user (r : URegex) (v L t : List Char) (items : List (Item × Option Key))
+    (hok : ValueOK r v L)
+    (hfail : ∀ str, L.isPrefixOf str = false → matchItems items str = none) :
+    Reaches r.item (v ++ (L ++ t)) v.length items := by
+  intro F hF res hres
+  cases r with
+  | digits k =>
+    obtain ⟨hl, hd⟩ := hok
+    have := det_digits k v hl hd (L ++ t)
+    simp only [URegex.item, this, List.findSome?_cons, hres]
+  | alt ws =>
+    obtain ⟨hv, hL⟩ := hok
+    cases L with
+    | nil => exact absurd hL id
+    | cons c0 L' =>
+      simp only at hL
+      obtain ⟨hmem, hle⟩ := cands_alt_spec ws v c0 (L' ++ t) hv hL
+      have hs : v ++ (c0 :: L' ++ t) = v ++ c0 :: (L' ++ t) := by simp
+      simp only [URegex.item]
+      apply findSome_of_mem F _ v.length res (by rw [hs]; exact hmem) _ hres
+      intro k hk
+      rcases Nat.lt_or_ge k v.length with hlt | hge
+      · right
+        exact hF k (by omega) (char_dead v c0 L' t items hfail (hL v hv) k hlt)
+      · left
+        have := hle k (by rw [← hs]; exact hk)
+        omega
+  | lazyPlus =>
+    obtain ⟨h1, hnl, hne⟩ := hok
+    simp only [URegex.item, cands]
+    have hK := takeWhile_length_ge (fun c => c ≠ '\n') v (L ++ t) (by simpa using hnl)
+    exact findSome_range' F res v.length _ 1 h1 (by omega)
+      (fun k _ hk => hF k (by omega) (noEarly_dead v L t items hfail hne k hk)) hres
+  | lazyStar =>
+    obtain ⟨hnl, hne⟩ := hok
+    simp only [URegex.item, cands]
+    have hK := takeWhile_length_ge (fun c => c ≠ '\n') v (L ++ t) (by simpa using hnl)
+    exact findSome_range' F res v.length _ 0 (Nat.zero_le _) (by omega)
+      (fun k _ hk => hF k (by omega) (noEarly_dead v L t items hfail hne k hk)) hres
+  | cls rs q =>
+    obtain ⟨hin, hL, hq⟩ := hok
+    cases L with
+    | nil => exact absurd hL id
+    | cons c0 L' =>
+      simp only at hL
+      have hs : v ++ (c0 :: L' ++ t) = v ++ c0 :: (L' ++ t) := by simp
+      have htw : ((v ++ (c0 :: L' ++ t)).takeWhile (inCls rs)) = v := by
+        rw [hs]; exact takeWhile_append_stop (inCls rs) v c0 (L' ++ t) hin hL
+      cases q with
+      | plus =>
+        simp only at hq
+        obtain ⟨tl, htl⟩ := downTo_head 1 v.length hq
+        simp only [URegex.item, cands, htw, htl, List.findSome?_cons, hres]
+      | star =>
+        obtain ⟨tl, htl⟩ := downTo_head 0 v.length (Nat.zero_le _)
+        simp only [URegex.item, cands, htw, htl, List.findSome?_cons, hres]
+      | exact k =>
+        simp only at hq
+        subst hq
+        simp only [URegex.item, cands, htw, Nat.le_refl, ↓reduceIte, List.findSome?_cons, hres]
+
 /-! ### Compile, format and match agree on unambiguous templates -/
+
+theorem isPrefixOf_nil_false (str : List Char) : ([] : List Char).isPrefixOf str = false → False := by
+  simp [List.isPrefixOf]
 
 theorem compile_match_unambig (cfg : Cfg) (ctx : Ctx) (hs : GoodTime ctx.s) (he : GoodTime ctx.e) :
     ∀ (tpl : List Tok) (seen : List Key), Unambig cfg ctx tpl →
       ∃ items ps, compile cfg tpl seen = .ok items ∧ pieces cfg ctx tpl = .ok ps ∧
         matchItems items ps.flatten = some (capsOf ctx tpl seen) ∧
         (∀ c ∈ ps.flatten, special c = false) ∧
-        (∀ c0 ts', tpl = .lit c0 :: ts' →
-          (∀ x xs, x ≠ c0 → matchItems items (x :: xs) = none) ∧ ∃ t, ps.flatten = c0 :: t) := by
+        (∀ str, (litPrefix tpl).isPrefixOf str = false → matchItems items str = none) ∧
+        (∃ t, ps.flatten = litPrefix tpl ++ t) := by
   intro tpl
   induction tpl with
   | nil =>
     intro seen _
-    refine ⟨[], [], rfl, rfl, by simp [matchItems, capsOf], by simp, ?_⟩
-    intro c0 ts' h; simp at h
+    refine ⟨[], [], rfl, rfl, by simp [matchItems, capsOf], by simp, ?_, ⟨[], by simp [litPrefix]⟩⟩
+    intro str h; exact absurd h (by simp [litPrefix, List.isPrefixOf])
   | cons t ts ih =>
     intro seen hu
     cases t with
     | star => exact absurd hu (by simp [Unambig])
     | lit c =>
       obtain ⟨hra, hsp, hts⟩ := hu
-      obtain ⟨items, ps, h1, h2, h3, h5, _⟩ := ih seen hts
-      refine ⟨(.char c, none) :: items, [c] :: ps, ?_, ?_, ?_, ?_, ?_⟩
+      obtain ⟨items, ps, h1, h2, h3, h5, h6, t, h7⟩ := ih seen hts
+      refine ⟨(.char c, none) :: items, [c] :: ps, ?_, ?_, ?_, ?_, ?_, ?_⟩
       · simp only [compile, compileTok, hra, h1, Bool.false_eq_true, ↓reduceIte]
       · simp only [pieces, piece, h2]
       · have hstep := matchItems_cons_prio (.char c) none items (c :: ps.flatten) 1 _
@@ -178,11 +356,23 @@ theorem compile_match_unambig (cfg : Cfg) (ctx : Ctx) (hs : GoodTime ctx.s) (he 
         rcases hx with rfl | hx
         · exact hsp
         · exact h5 x hx
-      · intro c0 ts' heq
-        simp only [List.cons.injEq, Tok.lit.injEq] at heq
-        obtain ⟨rfl, _⟩ := heq
-        exact ⟨fun x xs hx => matchItems_char_ne c none items x xs hx, ⟨ps.flatten, by simp⟩⟩
+      · intro str hstr
+        cases str with
+        | nil => simp [matchItems, cands]
+        | cons x xs =>
+          by_cases hx : x = c
+          · subst hx
+            have hxs : (litPrefix ts).isPrefixOf xs = false := by
+              simpa [litPrefix, List.isPrefixOf] using hstr
+            have := h6 xs hxs
+            simp [matchItems, cands, this]
+          · exact matchItems_char_ne c none items x xs hx
+      · exact ⟨t, by simp [litPrefix, h7]⟩
     | ph k =>
+      have hlp : litPrefix (Tok.ph k :: ts) = [] := rfl
+      have hnil : ∀ (items : List (Item × Option Key)) (str : List Char),
+          (litPrefix (Tok.ph k :: ts)).isPrefixOf str = false → matchItems items str = none := by
+        intro items str h; rw [hlp] at h; exact absurd h (by simp [List.isPrefixOf])
       cases k with
       | time isEnd f =>
         obtain ⟨ht, hts⟩ := hu
@@ -210,8 +400,9 @@ theorem compile_match_unambig (cfg : Cfg) (ctx : Ctx) (hs : GoodTime ctx.s) (he 
             (by simpa using hr)
           simpa using this
         by_cases hseen : seen.contains (Key.time isEnd f) = true
-        · obtain ⟨items, ps, h1, h2, h3, h5, _⟩ := ih seen hts
-          refine ⟨(.digits f.width, none) :: items, tstr (if isEnd then ctx.e else ctx.s) f :: ps, ?_, ?_, ?_, ?_, ?_⟩
+        · obtain ⟨items, ps, h1, h2, h3, h5, _, _⟩ := ih seen hts
+          refine ⟨(.digits f.width, none) :: items, tstr (if isEnd then ctx.e else ctx.s) f :: ps,
+            ?_, ?_, ?_, ?_, hnil _, ⟨_, by rw [hlp]; rfl⟩⟩
           · simp only [compile, compileTok, hseen, h1, ↓reduceIte]
           · simp only [pieces, hpiece, h2]
           · have hmem : Key.time isEnd f ∈ seen := by simpa using hseen
@@ -221,10 +412,10 @@ theorem compile_match_unambig (cfg : Cfg) (ctx : Ctx) (hs : GoodTime ctx.s) (he 
             rcases hx with hx | hx
             · exact hspec x hx
             · exact h5 x hx
-          · intro c0 ts' heq; simp at heq
-        · obtain ⟨items, ps, h1, h2, h3, h5, _⟩ := ih (Key.time isEnd f :: seen) hts
+        · obtain ⟨items, ps, h1, h2, h3, h5, _, _⟩ := ih (Key.time isEnd f :: seen) hts
           refine ⟨(.digits f.width, some (Key.time isEnd f)) :: items,
-            tstr (if isEnd then ctx.e else ctx.s) f :: ps, ?_, ?_, ?_, ?_, ?_⟩
+            tstr (if isEnd then ctx.e else ctx.s) f :: ps, ?_, ?_, ?_, ?_, hnil _,
+            ⟨_, by rw [hlp]; rfl⟩⟩
           · simp only [compile, compileTok, hseen, h1, Bool.false_eq_true, ↓reduceIte]
           · simp only [pieces, hpiece, h2]
           · have hmem : Key.time isEnd f ∉ seen := by simpa using hseen
@@ -234,65 +425,51 @@ theorem compile_match_unambig (cfg : Cfg) (ctx : Ctx) (hs : GoodTime ctx.s) (he 
             rcases hx with hx | hx
             · exact hspec x hx
             · exact h5 x hx
-          · intro c0 ts' heq; simp at heq
       | user n =>
         obtain ⟨huser, hts⟩ := hu
-        obtain ⟨ws, v, c0, ts', hreg, hfill, hshape, hv, hvs, hc⟩ := userOK_elim huser
+        obtain ⟨r, v, hreg, hfill, hvs, hok⟩ := userOK_elim huser
         have hpiece : piece cfg ctx (.ph (.user n)) = .ok v := by
           simp only [piece, hfill]
-        have hc0v : c0 ∉ v := hc v hv
-        -- one matching step, for either capture flag
         have hstep : ∀ (key : Option Key) (items : List (Item × Option Key)) (t : List Char)
-            (r : Caps), (∀ x xs, x ≠ c0 → matchItems items (x :: xs) = none) →
-            matchItems items (c0 :: t) = some r →
-            matchItems ((.alt ws, key) :: items) (v ++ c0 :: t) =
+            (caps : Caps),
+            (∀ str, (litPrefix ts).isPrefixOf str = false → matchItems items str = none) →
+            matchItems items (litPrefix ts ++ t) = some caps →
+            matchItems ((r.item, key) :: items) (v ++ (litPrefix ts ++ t)) =
               some (match key with
-                | some k => (k, v) :: r
-                | none => r) := by
-          intro key items t r hbad hr
-          obtain ⟨hmem, hle⟩ := cands_alt_spec ws v c0 t hv hc
-          have := matchItems_cons_prio (.alt ws) key items (v ++ c0 :: t) v.length r hmem
-            (by
-              intro k hk
-              rcases Nat.lt_or_ge k v.length with hlt | hge
-              · right
-                rw [List.drop_append_of_le_length (by omega), List.drop_eq_getElem_cons hlt]
-                exact hbad _ _ (fun h => hc0v (h ▸ List.getElem_mem hlt))
-              · left; have := hle k hk; omega)
-            (by simpa using hr)
+                | some k => (k, v) :: caps
+                | none => caps) := by
+          intro key items t caps hfail hr
+          have := matchItems_of_reaches r.item key items (v ++ (litPrefix ts ++ t)) v.length caps
+            (reaches_user r v (litPrefix ts) t items hok hfail) (by simpa using hr)
           simpa using this
         by_cases hseen : seen.contains (Key.user n) = true
-        · obtain ⟨items, ps, h1, h2, h3, h5, h6⟩ := ih seen hts
-          obtain ⟨hbad, t, hflat⟩ := h6 c0 ts' hshape
-          refine ⟨(.alt ws, none) :: items, v :: ps, ?_, ?_, ?_, ?_, ?_⟩
-          · simp only [compile, compileTok, hreg, URegex.item, hseen, h1, ↓reduceIte]
+        · obtain ⟨items, ps, h1, h2, h3, h5, h6, t, hflat⟩ := ih seen hts
+          refine ⟨(r.item, none) :: items, v :: ps, ?_, ?_, ?_, ?_, hnil _, ⟨_, by rw [hlp]; rfl⟩⟩
+          · simp only [compile, compileTok, hreg, hseen, h1, ↓reduceIte]
           · simp only [pieces, hpiece, h2]
           · rw [List.flatten_cons, hflat]
             rw [hflat] at h3
             have hmem : Key.user n ∈ seen := by simpa using hseen
-            simpa [capsOf, hmem] using hstep none items t _ hbad h3
+            simpa [capsOf, hmem] using hstep none items t _ h6 h3
           · intro x hx
             simp only [List.flatten_cons, List.mem_append] at hx
             rcases hx with hx | hx
             · exact hvs x hx
             · exact h5 x hx
-          · intro c0 ts' heq; simp at heq
-        · obtain ⟨items, ps, h1, h2, h3, h5, h6⟩ := ih (Key.user n :: seen) hts
-          obtain ⟨hbad, t, hflat⟩ := h6 c0 ts' hshape
-          refine ⟨(.alt ws, some (Key.user n)) :: items, v :: ps, ?_, ?_, ?_, ?_, ?_⟩
-          · simp only [compile, compileTok, hreg, URegex.item, hseen, h1, Bool.false_eq_true,
-              ↓reduceIte]
+        · obtain ⟨items, ps, h1, h2, h3, h5, h6, t, hflat⟩ := ih (Key.user n :: seen) hts
+          refine ⟨(r.item, some (Key.user n)) :: items, v :: ps, ?_, ?_, ?_, ?_, hnil _,
+            ⟨_, by rw [hlp]; rfl⟩⟩
+          · simp only [compile, compileTok, hreg, hseen, h1, Bool.false_eq_true, ↓reduceIte]
           · simp only [pieces, hpiece, h2]
           · rw [List.flatten_cons, hflat]
             rw [hflat] at h3
             have hmem : Key.user n ∉ seen := by simpa using hseen
-            simpa [capsOf, hmem, keyStr, hfill] using hstep (some (Key.user n)) items t _ hbad h3
+            simpa [capsOf, hmem, keyStr, hfill] using hstep (some (Key.user n)) items t _ h6 h3
           · intro x hx
             simp only [List.flatten_cons, List.mem_append] at hx
             rcases hx with hx | hx
             · exact hvs x hx
             · exact h5 x hx
-          · intro c0 ts' heq; simp at heq
 
 /-! ### Attributes -/
 
@@ -495,7 +672,7 @@ theorem unambig_user_fill (cfg : Cfg) (ctx : Ctx) :
         rcases List.mem_cons.mp hm with h | h
         · simp only [Tok.ph.injEq, Key.user.injEq] at h
           subst h
-          obtain ⟨ws, v, c0, ts', _, hfill, _⟩ := userOK_elim hu.1
+          obtain ⟨r, v, _, hfill, _⟩ := userOK_elim hu.1
           exact ⟨v, hfill, by simp [keyStr, hfill]⟩
         · exact ih hu.2 n h
 
